@@ -3,7 +3,7 @@
  "name": "allocate_tables_every_group",
  "props": ["C07"],
  "level": "U",
- "tier": "wip",
+ "tier": "quick",
  "harness": "h_allocate_tables_every_group",
  "replace": ["ext2fs_allocate_group_table"],
  "loop_contracts": true,
